@@ -16,7 +16,6 @@ Record obs := mkO {
   o_shape_ok : bool;     (* no unnamed/extra column or row, rows are [0,0], columns continuous, optlang view = GLPK *)
   o_res : res }.
 
-Definition memz (k : Z) (l : list Z) : bool := existsb (Z.eqb k) l.
 Fixpoint assq (k : Z) (l : list (Z * Qc)) : Qc :=
   match l with [] => q0 | (a, b) :: r => if a =? k then b else assq k r end.
 Fixpoint assn (k : name) (l : list (name * Qc)) : Qc :=
